@@ -581,11 +581,11 @@ Section Pre.
 
   (* push_and_encode: the scheduled page numbers go on top of the stack in order, the new pages
      become the page numbers of the new portions in order *)
-  Lemma push_enc_spec : forall push ps new enc ps' enc',
-      push_enc cap ps push new enc = Some (ps', enc') ->
+  Lemma push_enc_spec : forall push ps new clean enc ps' enc',
+      push_enc cap ps push new clean enc = Some (ps', enc') ->
       stack ps' = rev push ++ stack ps /\ heads ps' = rev new ++ heads ps.
   Proof.
-    induction push as [|pn rest IH]; intros ps new enc ps' enc' H; cbn [push_enc] in H.
+    induction push as [|pn rest IH]; intros ps new clean enc ps' enc' H; cbn [push_enc] in H.
     - destruct new; [|discriminate]. injection H as <- _. split; reflexivity.
     - destruct ((match ps with [] => true | (_, its) :: _ => length its =? cap end)
                 || (match ps with [] => false | (_, its) :: _ => length its =? cap - 1 end
@@ -678,7 +678,7 @@ Section Pre.
       intros [Hc|Hc]; [congruence|contradiction].
     - destruct (preallocate cap (fl_portions s) [] (freed ++ rev (fl_released s)) bump) as [st|] eqn:Epre; [|discriminate].
       cbn [obind] in H.
-      destruct (push_enc cap (p_ps st) (p_push st) (p_new st) []) as [[ps' enc']|] eqn:Eenc; [|discriminate].
+      destruct (push_enc cap (p_ps st) (p_push st) (p_new st) (head_untouched st) []) as [[ps' enc']|] eqn:Eenc; [|discriminate].
       cbn [obind fst snd] in H. injection H as <- <- <-. cbn [fl_portions fl_released].
       pose proof (preallocate_rel_nil _ _ _ _ Epre) as Hrel.
       apply preallocate_rel in Epre. destruct Epre as [popped [k [A1 [A2 [A3 [A4 [A5 [e A6]]]]]]]].
@@ -692,31 +692,33 @@ Section Pre.
       intros _. split; [exact Hrel|]. exists e. rewrite A6, <- app_assoc. reflexivity.
   Qed.
 
-  Lemma push_enc_written : forall push ps new enc ps' enc',
-      push_enc cap ps push new enc = Some (ps', enc') ->
+  Lemma push_enc_written : forall push ps new clean enc ps' enc',
+      push_enc cap ps push new clean enc = Some (ps', enc') ->
       forall w, In w enc' -> In w enc \/ In (fst (fst w)) (heads ps').
   Proof.
-    induction push as [|pn rest IH]; intros ps new enc ps' enc' H w Hw; cbn [push_enc] in H.
+    induction push as [|pn rest IH]; intros ps new clean enc ps' enc' H w Hw; cbn [push_enc] in H.
     - destruct new; [|discriminate]. injection H as <- <-.
+      destruct clean; [left; exact Hw|].
       apply in_app_or in Hw. destruct Hw as [Hw|Hw]; [left; exact Hw|right].
       destruct ps as [|[h its] r]; [destruct Hw|]. cbn [encode_head In] in Hw.
       destruct Hw as [<-|[]]. left. reflexivity.
-    - assert (Hsub : forall ps1 new1 enc1, push_enc cap ps1 rest new1 enc1 = Some (ps', enc') ->
+    - assert (Hsub : forall ps1 new1 c1 enc1, push_enc cap ps1 rest new1 c1 enc1 = Some (ps', enc') ->
                                        forall h, In h (heads ps1) -> In h (heads ps')).
-      { intros ps1 new1 enc1 H1 h Hh. apply push_enc_spec in H1. destruct H1 as [_ H1].
+      { intros ps1 new1 c1 enc1 H1 h Hh. apply push_enc_spec in H1. destruct H1 as [_ H1].
         rewrite H1. apply in_or_app. right. exact Hh. }
       destruct ((match ps with [] => true | (_, its) :: _ => length its =? cap end)
                 || (match ps with [] => false | (_, its) :: _ => length its =? cap - 1 end
                     && negb (is_nil new) && is_nil rest)).
       + destruct new as [|np new']; [discriminate|].
-        pose proof (Hsub _ _ _ H) as Hs.
-        apply (IH _ _ _ _ _ H) in Hw. destruct Hw as [Hw|Hw]; [|right; exact Hw].
+        pose proof (Hsub _ _ _ _ H) as Hs.
+        apply (IH _ _ _ _ _ _ H) in Hw. destruct Hw as [Hw|Hw]; [|right; exact Hw].
+        destruct clean; [left; exact Hw|].
         apply in_app_or in Hw. destruct Hw as [Hw|Hw]; [left; exact Hw|right].
         destruct ps as [|[h its] r]; [destruct Hw|]. cbn [encode_head In] in Hw.
         destruct Hw as [<-|[]]. cbn [fst]. apply Hs. rewrite !heads_cons. right. left. reflexivity.
       + destruct ps as [|[h its] r]; [discriminate|].
         destruct (length its <? cap); [|discriminate].
-        apply (IH _ _ _ _ _ H) in Hw. exact Hw.
+        apply (IH _ _ _ _ _ _ H) in Hw. exact Hw.
   Qed.
 
   Lemma commit_written : forall s freed bump s' bump' ws,
@@ -726,9 +728,9 @@ Section Pre.
     intros s freed bump s' bump' ws H w Hw. unfold commit in H.
     destruct (negb (fl_pop s) && is_nil freed); [injection H as _ _ <-; destruct Hw|].
     destruct (preallocate cap (fl_portions s) [] (freed ++ rev (fl_released s)) bump) as [st|]; [|discriminate].
-    cbn [obind] in H. destruct (push_enc cap (p_ps st) (p_push st) (p_new st) []) as [[ps2 enc2]|] eqn:Eenc; [|discriminate].
+    cbn [obind] in H. destruct (push_enc cap (p_ps st) (p_push st) (p_new st) (head_untouched st) []) as [[ps2 enc2]|] eqn:Eenc; [|discriminate].
     cbn [obind fst snd] in H. injection H as <- _ <-. cbn [fl_portions].
-    destruct (push_enc_written _ _ _ _ _ _ Eenc w Hw) as [[]|Hh]. exact Hh.
+    destruct (push_enc_written _ _ _ _ _ _ _ Eenc w Hw) as [[]|Hh]. exact Hh.
   Qed.
 
   Lemma commit_pop_false : forall s freed bump s' bump' ws,
@@ -737,7 +739,7 @@ Section Pre.
     intros s freed bump s' bump' ws H. unfold commit in H.
     destruct (negb (fl_pop s) && is_nil freed); [injection H as <- _ _; reflexivity|].
     destruct (preallocate cap (fl_portions s) [] (freed ++ rev (fl_released s)) bump) as [st|]; [|discriminate].
-    cbn [obind] in H. destruct (push_enc cap (p_ps st) (p_push st) (p_new st) []) as [r|]; [|discriminate].
+    cbn [obind] in H. destruct (push_enc cap (p_ps st) (p_push st) (p_new st) (head_untouched st) []) as [r|]; [|discriminate].
     cbn [obind] in H. injection H as <- _ _. reflexivity.
   Qed.
 
@@ -1598,14 +1600,14 @@ Section Total.
         split; [lia|]. split; [left; reflexivity|lia].
   Qed.
 
-  Lemma push_enc_total : forall push ps new enc,
+  Lemma push_enc_total : forall push ps new clean enc,
       preshape ps ->
       length push <= room ps + cap * length new ->
       (length new = 0 \/ cap * (length new - 1) + room ps <= length push) ->
       (1 <= length new -> 1 <= length push) ->
-      exists ps' enc', push_enc cap ps push new enc = Some (ps', enc') /\ shape_b cap ps' = true.
+      exists ps' enc', push_enc cap ps push new clean enc = Some (ps', enc') /\ shape_b cap ps' = true.
   Proof.
-    induction push as [|pn rest IH]; intros ps new enc Hps Hroom Htight Hne.
+    induction push as [|pn rest IH]; intros ps new clean enc Hps Hroom Htight Hne.
     - cbn [push_enc]. destruct new as [|np new']; [|cbn [length] in Hne; lia].
       eexists. eexists. split; [reflexivity|]. apply preshape_shape. exact Hps.
     - cbn [push_enc]. cbn [length] in *.
@@ -1677,7 +1679,7 @@ Section Total.
       destruct (pre_loop_total _ _ Hinv Hfuel) as [st' [E2 [Hinv' Hexit]]].
       rewrite E2. cbn [obind].
       destruct Hinv' as [I1 [I2 [I3 [I4 [I5 I6]]]]].
-      destruct (push_enc_total (p_push st') (p_ps st') (p_new st') [] I1) as [ps' [enc' [E3 Hshape]]];
+      destruct (push_enc_total (p_push st') (p_ps st') (p_new st') (head_untouched st') [] I1) as [ps' [enc' [E3 Hshape]]];
         [lia|exact I5|exact I6|].
       rewrite E3. cbn [obind fst snd].
       eexists. eexists. eexists. split; [reflexivity|].
@@ -1790,9 +1792,9 @@ Section NonVacuity.
 End NonVacuity.
 
 (* ---------------------------------------------------------------------------------------------- *)
-(* G. copy on write: the pages the commit writes are drawn from the free items of the list or from *)
-(*    the frontier; the only other write re-encodes an untouched full portion onto its own page     *)
-(*    with identical content (encode_head before the first new portion is opened).                  *)
+(* G. copy on write: every page the commit writes is drawn from the free items of the list or    *)
+(*    from the frontier; an untouched full portion that became the head is NOT re-encoded           *)
+(*    (head_untouched / head_clean of the repaired code).                                           *)
 
 Definition suffix {A} (a b : list A) : Prop := exists pre, b = pre ++ a.
 
@@ -1922,43 +1924,44 @@ Section Cow.
         exists x, (y :: its''), r. split; [reflexivity|]. split; [exact Hx|exact Hr].
   Qed.
 
-  (* push_and_encode: what the head may be when it is encoded *)
-  Definition pcow (b : N) (ps : list portion) : Prop :=
+  (* push_and_encode: the head is a page drawn in this commit, or it is clean (and full) *)
+  Definition pcow (b : N) (clean : bool) (ps : list portion) : Prop :=
     match ps with
     | [] => True
-    | (h, its) :: r => fresh b h \/ (length its = cap /\ suffix ps (tl ps0))
+    | (h, its) :: r => fresh b h \/ (clean = true /\ length its = cap)
     end.
 
-  Lemma push_enc_cow : forall b push ps new enc ps' enc',
-      push_enc cap ps push new enc = Some (ps', enc') ->
-      pcow b ps -> (forall x, In x new -> fresh b x) ->
-      forall w, In w enc' ->
-        In w enc \/ fresh b (fst (fst w)) \/ In w (layout (to_disk (tl ps0))).
+  Lemma push_enc_cow : forall b push ps new clean enc ps' enc',
+      push_enc cap ps push new clean enc = Some (ps', enc') ->
+      pcow b clean ps -> (forall x, In x new -> fresh b x) ->
+      forall w, In w enc' -> In w enc \/ fresh b (fst (fst w)).
   Proof.
-    intros b. induction push as [|pn rest IH]; intros ps new enc ps' enc' H Hp Hn w Hw; cbn [push_enc] in H.
+    intros b. induction push as [|pn rest IH]; intros ps new clean enc ps' enc' H Hp Hn w Hw; cbn [push_enc] in H.
     - destruct new; [|discriminate]. injection H as <- <-.
+      destruct clean; [left; exact Hw|].
       apply in_app_or in Hw. destruct Hw as [Hw|Hw]; [left; exact Hw|right].
       destruct ps as [|[h its] r]; [destruct Hw|]. cbn [encode_head In] in Hw.
       destruct Hw as [<-|[]]. cbn [fst]. cbn [pcow] in Hp.
-      destruct Hp as [Hp|[_ Hp]]; [left; exact Hp|right; apply layout_suffix; exact Hp].
-    - assert (Hhead : forall w0, In w0 (encode_head ps) -> fresh b (fst (fst w0)) \/ In w0 (layout (to_disk (tl ps0)))).
-      { intros w0 Hw0. destruct ps as [|[h its] r]; [destruct Hw0|]. cbn [encode_head In] in Hw0.
+      destruct Hp as [Hp|[Hp _]]; [exact Hp|discriminate].
+    - assert (Hhead : clean = false -> forall w0, In w0 (encode_head ps) -> fresh b (fst (fst w0))).
+      { intros Hcl w0 Hw0. destruct ps as [|[h its] r]; [destruct Hw0|]. cbn [encode_head In] in Hw0.
         destruct Hw0 as [<-|[]]. cbn [fst]. cbn [pcow] in Hp.
-        destruct Hp as [Hp|[_ Hp]]; [left; exact Hp|right; apply layout_suffix; exact Hp]. }
+        destruct Hp as [Hp|[Hp _]]; [exact Hp|congruence]. }
       destruct ((match ps with [] => true | (_, its) :: _ => length its =? cap end)
                 || (match ps with [] => false | (_, its) :: _ => length its =? cap - 1 end
                     && negb (is_nil new) && is_nil rest)) eqn:Eopen.
       + destruct new as [|np new']; [discriminate|].
-        assert (Hp' : pcow b ((np, [pn]) :: ps)) by (cbn [pcow]; left; apply Hn; left; reflexivity).
+        assert (Hp' : pcow b false ((np, [pn]) :: ps)) by (cbn [pcow]; left; apply Hn; left; reflexivity).
         assert (Hn' : forall x, In x new' -> fresh b x) by (intros x Hx; apply Hn; right; exact Hx).
-        destruct (IH _ _ _ _ _ H Hp' Hn' w Hw) as [Hin|Hr]; [|right; exact Hr].
-        apply in_app_or in Hin. destruct Hin as [Hin|Hin]; [left; exact Hin|right; apply Hhead; exact Hin].
+        destruct (IH _ _ _ _ _ _ H Hp' Hn' w Hw) as [Hin|Hr]; [|right; exact Hr].
+        destruct clean; [left; exact Hin|].
+        apply in_app_or in Hin. destruct Hin as [Hin|Hin]; [left; exact Hin|right; apply Hhead; [reflexivity|exact Hin]].
       + destruct ps as [|[h its] r]; [discriminate|].
         destruct (length its <? cap) eqn:Elt; [|discriminate].
         apply orb_false_iff in Eopen. destruct Eopen as [Efull _]. apply Nat.eqb_neq in Efull.
-        assert (Hp' : pcow b ((h, pn :: its) :: r)).
-        { cbn [pcow] in *. destruct Hp as [Hp|[Hp _]]; [left; exact Hp|contradiction]. }
-        exact (IH _ _ _ _ _ H Hp' Hn w Hw).
+        assert (Hp' : pcow b false ((h, pn :: its) :: r)).
+        { cbn [pcow] in *. destruct Hp as [Hp|[_ Hp]]; [left; exact Hp|contradiction]. }
+        exact (IH _ _ _ _ _ _ H Hp' Hn w Hw).
   Qed.
 
 End Cow.
@@ -1968,15 +1971,13 @@ Section CowCommit.
   Hypothesis cap2 : 2 <= cap.
 
   (* FreeList::commit: every page written hosts a portion of the new list and is a free item of
-     the list the commit starts from, or a frontier page [bump, bump'), or the page of an untouched
-     portion re-encoded with its old link and items *)
+     the list the commit starts from or a frontier page [bump, bump') - nothing else *)
   Theorem commit_cow : forall s freed bump s' bump' ws,
       shape_b cap (fl_portions s) = true ->
       commit cap s freed bump = Some (s', bump', ws) ->
       forall w, In w ws ->
         In (fst (fst w)) (heads (fl_portions s')) /\
-        (In (fst (fst w)) (stack (fl_portions s)) \/ (bump <= fst (fst w) /\ fst (fst w) < bump')%N
-         \/ In w (layout (to_disk (tl (fl_portions s))))).
+        (In (fst (fst w)) (stack (fl_portions s)) \/ (bump <= fst (fst w) /\ fst (fst w) < bump')%N).
   Proof.
     intros s freed bump s' bump' ws Hs H w Hw.
     split; [exact (commit_written cap _ _ _ _ _ _ H w Hw)|].
@@ -1987,7 +1988,7 @@ Section CowCommit.
     cbn [obind] in H.
     destruct (pre_loop cap (pre_fuel (p_push st)) st) as [st'|] eqn:E2; [|discriminate].
     cbn [obind] in H.
-    destruct (push_enc cap (p_ps st') (p_push st') (p_new st') []) as [[ps2 enc2]|] eqn:E3; [|discriminate].
+    destruct (push_enc cap (p_ps st') (p_push st') (p_new st') (head_untouched st') []) as [[ps2 enc2]|] eqn:E3; [|discriminate].
     cbn [obind fst snd] in H. injection H as <- <- <-.
     (* the two invariants at the exit of the loop *)
     pose proof (pre_first_cinv cap cap2 (fl_portions s) bump _ _ E1) as Hc1.
@@ -1997,16 +1998,15 @@ Section CowCommit.
     destruct (pre_loop_total cap cap2 _ _ Hl1 Hf1) as [st1 [E2' [Hl2 _]]].
     rewrite E2 in E2'. injection E2' as <-.
     destruct Hl2 as [L1 [L2 _]].
-    assert (Hp : pcow cap (fl_portions s) bump (p_bump st') (p_ps st')).
-    { destruct (p_ps st') as [|[h its] r] eqn:Eps; [exact I|]. cbn [pcow].
+    assert (Hp : pcow cap (fl_portions s) bump (p_bump st') (head_untouched st') (p_ps st')).
+    { unfold head_untouched. destruct (p_ps st') as [|[h its] r] eqn:Eps; [exact I|]. cbn [pcow is_nil negb].
       destruct (p_nfp st') eqn:Enfp.
-      - right. split; [|exact Hsh].
+      - right. split; [reflexivity|].
         assert (Hr : room cap ((h, its) :: r) = 0) by (apply L2; reflexivity).
         cbn [room preshape] in *. lia.
       - left. destruct Hsh as [h1 [its1 [r1 [Heq [Hh _]]]]]. injection Heq as <- _ _. exact Hh. }
-    destruct (push_enc_cow cap (fl_portions s) bump (p_bump st') _ _ _ _ _ _ E3 Hp Hnew w Hw) as [[]|[Hf|Hl]].
-    - destruct Hf as [Hf|Hf]; [left; exact Hf|right; left; exact Hf].
-    - right. right. exact Hl.
+    destruct (push_enc_cow cap (fl_portions s) bump (p_bump st') _ _ _ _ _ _ _ E3 Hp Hnew w Hw) as [[]|Hf].
+    destruct Hf as [Hf|Hf]; [left; exact Hf|right; exact Hf].
   Qed.
 
 End CowCommit.
@@ -2046,8 +2046,8 @@ Section CowSync.
 
   (* C17 for the free list itself: every page the commit of the free list writes is a portion page
      of the NEW list and was, in the old image, a free item or a page beyond the frontier - not a
-     live page, not a page released or handed out in this sync - the only other write being the
-     re-encoding of an untouched portion of the old list onto its own page with identical content *)
+     live page, not a page released or handed out in this sync, and never a portion page of the old
+     list *)
   Theorem sync_cow : forall s bump ops live got s' bump' ws,
       clean_b cap s = true -> (1 <= bump)%N ->
       covers (live ++ tracked (fl_portions s)) bump ->
@@ -2057,8 +2057,8 @@ Section CowSync.
         let pn := fst (fst w) in
         In pn (heads (fl_portions s')) /\
         ~ In pn live /\ ~ In pn got /\ ~ In pn (released_of ops) /\
-        (In pn (stack (fl_portions s)) \/ (bump <= pn /\ pn < bump')%N
-         \/ In w (layout (to_disk (fl_portions s)))).
+        ~ In pn (heads (fl_portions s)) /\
+        (In pn (stack (fl_portions s)) \/ (bump <= pn /\ pn < bump')%N).
   Proof.
     intros s bump ops live got s' bump' ws Hc Hb Hcov H Hok w Hw pn.
     pose proof (got_length cap cap_pos _ _ _ _ _ _ _ Hc H) as Hlen.
@@ -2073,30 +2073,36 @@ Section CowSync.
     pose proof (proj1 (cnt_in _ _) Hhead) as Hh.
     assert (Hfreed : cnt (released_of ops) pn <= cnt (stack (fl_portions s')) pn).
     { rewrite G6, G7. cnt_norm. lia. }
+    (* where it comes from *)
+    assert (Hsrc : In pn (stack (fl_portions s)) \/ (bump <= pn /\ pn < bump')%N).
+    { unfold sync_all in H.
+      destruct (sync_run cap (sync_start s bump) ops) as [y|] eqn:Erun; [|discriminate]. cbn [obind] in H.
+      destruct (sync_finish cap y) as [[[s1 b1] w1]|] eqn:Efin; [|discriminate]. cbn [obind fst snd] in H.
+      injection H as <- <- <- <-.
+      pose proof (sync_run_spec cap cap_pos ops (sync_start s bump) y Hc Erun) as [R1 [R2 [R3 _]]].
+      cbn [sync_start sy_fl sy_bump sy_allocs plus] in R1, R2, R3.
+      unfold sync_finish, finish in Efin. rewrite R1, R2 in Efin.
+      destruct (discard (sy_allocs y) (fl_portions s) (fl_released s)) as [[[d ps1] rel1] b] eqn:Ed.
+      pose proof (clean_b_spec cap s Hc) as [_ [_ [_ [_ Hshape]]]].
+      pose proof (discard_shape cap cap2 _ _ _ _ _ _ _ Hshape Ed) as Hs1.
+      pose proof (discard_spec _ _ _ _ _ _ _ Ed) as [D1 [D2 _]].
+      destruct (commit_cow cap cap2 (mkFl ps1 (fl_pop s || b) (fl_len s) (fl_frag s) rel1) _ _ _ _ _ Hs1 Efin w Hw) as [_ Hsrc].
+      cbn [fl_portions] in Hsrc. fold pn in Hsrc.
+      destruct Hsrc as [Hs|Hs].
+      - left. rewrite D1. apply in_or_app. right. exact Hs.
+      - right. lia. }
     split; [exact Hhead|].
     split; [intros Hi; apply cnt_in in Hi; lia|].
     split; [intros Hi; apply cnt_in in Hi; lia|].
     split; [intros Hi; apply cnt_in in Hi; lia|].
-    (* where it comes from *)
-    unfold sync_all in H.
-    destruct (sync_run cap (sync_start s bump) ops) as [y|] eqn:Erun; [|discriminate]. cbn [obind] in H.
-    destruct (sync_finish cap y) as [[[s1 b1] w1]|] eqn:Efin; [|discriminate]. cbn [obind fst snd] in H.
-    injection H as <- <- <- <-.
-    pose proof (sync_run_spec cap cap_pos ops (sync_start s bump) y Hc Erun) as [R1 [R2 [R3 _]]].
-    cbn [sync_start sy_fl sy_bump sy_allocs plus] in R1, R2, R3.
-    unfold sync_finish, finish in Efin. rewrite R1, R2 in Efin.
-    destruct (discard (sy_allocs y) (fl_portions s) (fl_released s)) as [[[d ps1] rel1] b] eqn:Ed.
-    pose proof (clean_b_spec cap s Hc) as [_ [_ [_ [_ Hshape]]]].
-    pose proof (discard_shape cap cap2 _ _ _ _ _ _ _ Hshape Ed) as Hs1.
-    pose proof (discard_spec _ _ _ _ _ _ _ Ed) as [D1 [D2 _]].
-    pose proof (discard_suffix _ _ _ _ _ _ _ Ed) as Dsuf.
-    destruct (commit_cow cap cap2 (mkFl ps1 (fl_pop s || b) (fl_len s) (fl_frag s) rel1) _ _ _ _ _ Hs1 Efin w Hw) as [_ Hsrc].
-    cbn [fl_portions] in Hsrc. fold pn in Hsrc.
-    destruct Hsrc as [Hs|[Hs|Hs]].
-    - left. rewrite D1. apply in_or_app. right. exact Hs.
-    - right. left. lia.
-    - right. right. eapply layout_suffix_incl; [|exact Hs].
-      eapply suffix_trans; [exact Dsuf|apply suffix_tl].
+    split; [|exact Hsrc].
+    (* not a portion page of the old list: those are neither free items nor beyond the frontier *)
+    intros Hi. apply cnt_in in Hi.
+    pose proof (proj1 (covers_cnt _ _) Hcov pn) as Hz0. unfold tracked in Hz0. cnt_norm_in Hz0. unfold ind in Hz0.
+    destruct Hsrc as [Hs|Hs].
+    - apply cnt_in in Hs. destruct ((1 <=? pn) && (pn <? bump))%N; lia.
+    - destruct ((1 <=? pn) && (pn <? bump))%N eqn:Er; [|lia].
+      apply andb_true_iff in Er. destruct Er as [_ Er]. apply N.ltb_lt in Er. lia.
   Qed.
 
 End CowSync.
@@ -2118,32 +2124,42 @@ Section Disk.
   Let cap_pos : 1 <= cap.
   Proof. lia. Qed.
 
-  Lemma push_enc_layout : forall push ps new enc ps' enc' Wd S,
-      push_enc cap ps push new enc = Some (ps', enc') ->
-      layout (to_disk (tl ps)) = Wd ++ S -> (forall w, In w Wd -> In w enc) ->
+  (* [clean]: the head is identical to its page on disk, which stays as it is; the layout of the
+     rest (of everything, when clean) consists of pages written so far on top of old pages *)
+  Lemma push_enc_layout : forall push ps new clean enc ps' enc' Wd S,
+      push_enc cap ps push new clean enc = Some (ps', enc') ->
+      (clean = true -> exists h its r, ps = (h, its) :: r /\ length its = cap) ->
+      layout (to_disk (if clean then ps else tl ps)) = Wd ++ S -> (forall w, In w Wd -> In w enc) ->
       exists W', layout (to_disk ps') = W' ++ S /\ forall w, In w W' -> In w enc'.
   Proof.
-    induction push as [|pn rest IH]; intros ps new enc ps' enc' Wd S H Hl Hw; cbn [push_enc] in H.
+    induction push as [|pn rest IH]; intros ps new clean enc ps' enc' Wd S H Hcl Hl Hw; cbn [push_enc] in H.
     - destruct new; [|discriminate]. injection H as <- <-.
-      destruct ps as [|[h its] r].
-      + cbn [tl to_disk map layout] in *. exists Wd. split; [exact Hl|].
-        intros w Hin. apply in_or_app. left. apply Hw. exact Hin.
-      + cbn [tl] in Hl. rewrite layout_cons, Hl. exists (encode_head ((h, its) :: r) ++ Wd).
-        split; [rewrite app_assoc; reflexivity|].
-        intros w Hin. apply in_app_or in Hin. apply in_or_app.
-        destruct Hin as [Hin|Hin]; [right; exact Hin|left; apply Hw; exact Hin].
+      destruct clean.
+      + exists Wd. split; [exact Hl|exact Hw].
+      + destruct ps as [|[h its] r].
+        * cbn [tl to_disk map layout] in *. exists Wd. split; [exact Hl|].
+          intros w Hin. apply in_or_app. left. apply Hw. exact Hin.
+        * cbn [tl] in Hl. rewrite layout_cons, Hl. exists (encode_head ((h, its) :: r) ++ Wd).
+          split; [rewrite app_assoc; reflexivity|].
+          intros w Hin. apply in_app_or in Hin. apply in_or_app.
+          destruct Hin as [Hin|Hin]; [right; exact Hin|left; apply Hw; exact Hin].
     - destruct ((match ps with [] => true | (_, its) :: _ => length its =? cap end)
                 || (match ps with [] => false | (_, its) :: _ => length its =? cap - 1 end
-                    && negb (is_nil new) && is_nil rest)).
+                    && negb (is_nil new) && is_nil rest)) eqn:Eopen.
       + destruct new as [|np new']; [discriminate|].
-        apply (IH _ _ _ _ _ (encode_head ps ++ Wd) S) in H; [exact H| |].
-        * cbn [tl]. destruct ps as [|[h its] r]; [exact Hl|].
-          cbn [tl] in Hl. rewrite layout_cons, Hl, app_assoc. reflexivity.
-        * intros w Hin. apply in_app_or in Hin. apply in_or_app.
-          destruct Hin as [Hin|Hin]; [right; exact Hin|left; apply Hw; exact Hin].
+        destruct clean.
+        * apply (IH _ _ _ _ _ _ Wd S) in H; [exact H|discriminate|exact Hl|exact Hw].
+        * apply (IH _ _ _ _ _ _ (encode_head ps ++ Wd) S) in H; [exact H|discriminate| |].
+          -- cbn [tl]. destruct ps as [|[h its] r]; [exact Hl|].
+             cbn [tl] in Hl. rewrite layout_cons, Hl, app_assoc. reflexivity.
+          -- intros w Hin. apply in_app_or in Hin. apply in_or_app.
+             destruct Hin as [Hin|Hin]; [right; exact Hin|left; apply Hw; exact Hin].
       + destruct ps as [|[h its] r]; [discriminate|].
         destruct (length its <? cap); [|discriminate].
-        apply (IH _ _ _ _ _ Wd S) in H; [exact H|exact Hl|exact Hw].
+        apply orb_false_iff in Eopen. destruct Eopen as [Efull _]. apply Nat.eqb_neq in Efull.
+        destruct clean.
+        * exfalso. destruct (Hcl eq_refl) as [h1 [its1 [r1 [Heq Hlen]]]]. injection Heq as <- <- <-. contradiction.
+        * apply (IH _ _ _ _ _ _ Wd S) in H; [exact H|discriminate|exact Hl|exact Hw].
   Qed.
 
   (* the layout of the new list: pages written by this commit on top of untouched pages of the
@@ -2168,17 +2184,29 @@ Section Disk.
       cbn [obind] in H.
       destruct (pre_loop cap (pre_fuel (p_push st)) st) as [st'|] eqn:E2; [|discriminate].
       cbn [obind] in H.
-      destruct (push_enc cap (p_ps st') (p_push st') (p_new st') []) as [[ps2 enc2]|] eqn:E3; [|discriminate].
+      destruct (push_enc cap (p_ps st') (p_push st') (p_new st') (head_untouched st') []) as [[ps2 enc2]|] eqn:E3; [|discriminate].
       cbn [obind fst snd] in H. injection H as <- _ <-. cbn [fl_portions].
       pose proof (pre_first_cinv cap cap2 (fl_portions s) bump _ _ E1) as Hc1.
       pose proof (pre_loop_cinv cap cap2 (fl_portions s) bump _ _ _ E2 Hc1) as [_ [_ [_ [_ Hsh]]]].
-      assert (Hr : suffix (tl (p_ps st')) (tl (fl_portions s))).
-      { destruct (p_nfp st').
-        - eapply suffix_trans; [apply suffix_tl|exact Hsh].
-        - destruct Hsh as [h [its [r [-> [_ Hr]]]]]. exact Hr. }
-      destruct (push_enc_layout _ _ _ _ _ _ [] (layout (to_disk (tl (p_ps st')))) E3 eq_refl) as [W' [HW1 HW2]];
+      destruct (pre_first_total cap cap2 (fl_portions s) (freed ++ rev (fl_released s)) bump Hs) as [st0 [E1' [Hl1 Hf1]]].
+      rewrite E1 in E1'. injection E1' as <-.
+      destruct (pre_loop_total cap cap2 _ _ Hl1 Hf1) as [st1 [E2' [Hl2 _]]].
+      rewrite E2 in E2'. injection E2' as <-.
+      destruct Hl2 as [L1 [L2 _]].
+      set (r := if head_untouched st' then p_ps st' else tl (p_ps st')).
+      assert (Hr : suffix r (tl (fl_portions s))).
+      { unfold r, head_untouched. destruct (p_nfp st').
+        - destruct (p_ps st') as [|x l]; cbn [is_nil negb andb tl]; [exact Hsh|exact Hsh].
+        - cbn [andb]. destruct Hsh as [h [its [r0 [-> [_ Hr]]]]]. exact Hr. }
+      assert (Hcl : head_untouched st' = true -> exists h its r0, p_ps st' = (h, its) :: r0 /\ length its = cap).
+      { unfold head_untouched. intros Hu. apply andb_true_iff in Hu. destruct Hu as [Hn Hne].
+        destruct (p_ps st') as [|[h its] r0] eqn:Eps; [discriminate|].
+        exists h, its, r0. split; [reflexivity|].
+        assert (Hroom : room cap ((h, its) :: r0) = 0) by (apply L2; exact Hn).
+        cbn [room preshape] in *. lia. }
+      destruct (push_enc_layout _ _ _ _ _ _ _ [] (layout (to_disk r)) E3 Hcl eq_refl) as [W' [HW1 HW2]];
         [intros w []|].
-      exists W', (tl (p_ps st')). split; [exact HW1|]. split; [exact HW2|].
+      exists W', r. split; [exact HW1|]. split; [exact HW2|].
       split; [eapply suffix_trans; [exact Hr|apply suffix_tl]|right; exact Hr].
   Qed.
 
@@ -2244,8 +2272,9 @@ Section DiskSync.
 
   (* After a sync, Image.free_walk (equally FreeList::read at the next open) from the new head
      over the new file content - the old content [rd0] with the pages written by the commit
-     replaced - returns exactly the list the code holds in memory.  Page numbers fit the u32
-     fields ([bump' <= 2^32]). *)
+     replaced - returns exactly the list the code holds in memory; in particular the page of an
+     untouched portion that became the head, which the commit does not write, still decodes to
+     that portion.  Page numbers fit the u32 fields ([bump' <= 2^32]). *)
   Theorem sync_disk : forall s bump ops live got s' bump' ws rd0 rd1 c fuel,
       clean_b cap s = true -> (1 <= bump)%N -> (bump' <= 2 ^ 32)%N ->
       covers (live ++ tracked (fl_portions s)) bump ->
@@ -2308,25 +2337,10 @@ Section DiskSync.
         assert (He0 : In e (layout (to_disk (fl_portions s)))) by (eapply layout_suffix_incl; [exact Hr|exact He]).
         unfold serves in Hrd0. rewrite Forall_forall in Hrd0. specialize (Hrd0 e He0).
         destruct (ws_dec w2 (fst (fst e))) as [[w [Hin Hw]]|Hn].
-        + (* the page was written: only an identical re-encoding is possible *)
-          destruct (sync_cow cap cap2 _ _ _ _ _ _ _ _ Hc Hb Hcov Hall Hok w Hin) as [_ [_ [_ [_ Hsrc]]]].
-          assert (Hhead : In (fst (fst e)) (heads (fl_portions s))).
-          { rewrite <- to_disk_heads. apply layout_in_heads. exact He0. }
-          pose proof (proj1 (covers_cnt _ _) Hcov (fst (fst e))) as Hz.
-          unfold tracked in Hz. cnt_norm_in Hz.
-          apply cnt_in in Hhead.
-          destruct Hsrc as [Hs|[Hs|Hs]].
-          * rewrite Hw in Hs. apply cnt_in in Hs. unfold ind in Hz.
-            destruct ((1 <=? fst (fst e)) && (fst (fst e) <? bump))%N; lia.
-          * rewrite Hw in Hs. unfold ind in Hz.
-            destruct ((1 <=? fst (fst e)) && (fst (fst e) <? bump))%N eqn:Er; [|lia].
-            apply andb_true_iff in Er. destruct Er as [_ Er]. apply N.ltb_lt in Er. lia.
-          * assert (Heq : w = e).
-            { apply (layout_inj (to_disk (fl_portions s))); try assumption.
-              rewrite to_disk_heads. apply nodup_cnt. intros z.
-              pose proof (proj1 (covers_cnt _ _) Hcov z) as Hz'. unfold tracked in Hz'. cnt_norm_in Hz'.
-              unfold ind in Hz'. destruct ((1 <=? z) && (z <? bump))%N; lia. }
-            subst w. apply Hnew. exact Hin.
+        + (* no page of the old list is written *)
+          exfalso.
+          destruct (sync_cow cap cap2 _ _ _ _ _ _ _ _ Hc Hb Hcov Hall Hok w Hin) as [_ [_ [_ [_ [Hnh _]]]]].
+          apply Hnh. rewrite Hw, <- to_disk_heads. apply layout_in_heads. exact He0.
         + destruct Hrd0 as [tail [Hrd Hlen]]. exists tail. rewrite (Hold _ Hn). split; assumption. }
     assert (Hhd : head_pn s2 = disk_head (to_disk (fl_portions s2))).
     { unfold head_pn. destruct (fl_portions s2) as [|[h its] r']; reflexivity. }
@@ -2351,3 +2365,33 @@ Proof.
   induction ps as [|[h its] r IH]; [reflexivity|].
   cbn [to_disk of_disk map fst snd] in *. rewrite rev_involutive. f_equal. exact IH.
 Qed.
+
+(* the pages the transition check takes as handed out are those of the mirrored allocate *)
+Lemma alloc_all_spec : forall cap, 1 <= cap -> forall s bump n idx,
+    clean_b cap s = true ->
+    alloc_all cap s bump idx n = Some (map (alloc_nth (fl_portions s) bump) (seq idx n)).
+Proof.
+  intros cap Hcap s bump n. induction n as [|n IH]; intros idx Hc; [reflexivity|].
+  cbn [alloc_all seq map]. rewrite (allocate_spec cap Hcap) by exact Hc.
+  rewrite IH by exact Hc. reflexivity.
+Qed.
+
+Theorem alloc_pages_spec : forall cap, 1 <= cap -> forall s bump n,
+    alloc_pages cap s bump n = alloc_all cap s bump 0 n.
+Proof.
+  intros cap Hcap s bump n. unfold alloc_pages. destruct (clean_b cap s) eqn:Hc; [|reflexivity].
+  rewrite (alloc_all_spec cap Hcap) by exact Hc. rewrite (alloc_seq_spec cap Hcap). reflexivity.
+Qed.
+
+(* the linear-time variants used by the executable checks are the plain functions *)
+Lemma frev_rev : forall {A} (l : list A), frev l = rev l.
+Proof. intros A l. unfold frev. symmetry. apply rev_alt. Qed.
+
+Lemma to_disk_f_eq : forall ps, to_disk_f ps = to_disk ps.
+Proof. intros ps. unfold to_disk_f, to_disk. apply map_ext. intros p. rewrite frev_rev. reflexivity. Qed.
+
+Lemma of_disk_f_eq : forall d, of_disk_f d = of_disk d.
+Proof. intros d. unfold of_disk_f, of_disk. apply map_ext. intros p. rewrite frev_rev. reflexivity. Qed.
+
+Lemma fl_read_f_eq : forall cap d, fl_read_f cap d = fl_read cap d.
+Proof. intros cap d. unfold fl_read_f, fl_read. rewrite of_disk_f_eq. reflexivity. Qed.
